@@ -292,6 +292,13 @@ def feq(a, b, rel=1e-9):
 # --------------------------------------------------------------------------- M8
 
 
+def grid_band(n):
+    """T4: how close to a tick boundary a text must be to count as 'float noise of that
+    boundary': 1e-9 tick absolute, plus 1e-13 relative so that the band stays above the
+    float resolution of large tick numbers (ulp(1e7) = 1.9e-9)."""
+    return Fraction(1, 10 ** 9) + Fraction(abs(int(n)), 10 ** 13)
+
+
 def exact_ticks(text, tps):
     """Exact position of an arrival text on the tick axis (Fraction)."""
     return Fraction(text.strip()) * tps
@@ -306,7 +313,7 @@ def arrival_tick(text, tps):
     n = round(x)
     if x == n:
         return int(n), True
-    if abs(x - n) <= REL_BAND * max(1, abs(n)):
+    if abs(x - n) <= grid_band(n):
         return int(c), False
     return int(c), True
 
@@ -318,6 +325,6 @@ def snap_tick(text, tps):
     n = round(x)
     if x == n:
         return int(n), True
-    if abs(x - n) <= REL_BAND * max(1, abs(n)):
+    if abs(x - n) <= grid_band(n):
         return int(f), False
     return int(f), True
